@@ -58,6 +58,7 @@ const (
 	c17Servfail = "servfail"  // SERVFAIL reply
 	c17NXDomain = "nxdomain"  // NXDOMAIN reply
 	c17NetErr   = "neterr"    // *net.OpError connection refused, at once
+	c17Gone     = "gone"      // pooled connection ended (EOF), the re-dial was refused: "creating connection: … refused"
 	c17Timeout  = "timeout"   // blocks c17UpsTimeout (virtual), then *net.OpError i/o timeout
 	c17TimeoutI = "timeout0"  // *net.OpError i/o timeout, at once
 	c17CtxDL    = "ctxdl"     // error wrapping context.DeadlineExceeded, at once
@@ -76,7 +77,7 @@ func c17IsReply(o string) bool { return o == c17OK || o == c17Servfail || o == c
 
 // c17IsNetErr reports whether outcome o is certainly a network error.
 func c17IsNetErr(o string) bool {
-	return o == c17NetErr || o == c17Timeout || o == c17TimeoutI || o == c17CtxDL
+	return o == c17NetErr || o == c17Timeout || o == c17TimeoutI || o == c17CtxDL || o == c17Gone
 }
 
 // c17Call is one recorded exchange with a scripted upstream.
@@ -158,6 +159,12 @@ func (u *c17Ups) Exchange(_ context.Context, req *dns.Msg) (resp *dns.Msg, nw Ne
 	case c17NetErr:
 		err = fmt.Errorf("upstreamplain: getting connection: %w", &net.OpError{
 			Op: "dial", Net: "udp", Addr: addr, Err: os.NewSyscallError("connect", syscall.ECONNREFUSED),
+		})
+	case c17Gone:
+		// What UpstreamPlain returns when the upstream went away between two
+		// queries: the error of the refused re-dial.
+		err = fmt.Errorf("upstreamplain: creating connection: %w", &net.OpError{
+			Op: "dial", Net: "tcp", Addr: addr, Err: os.NewSyscallError("connect", syscall.ECONNREFUSED),
 		})
 	case c17Timeout, c17TimeoutI:
 		if o == c17Timeout {
@@ -395,7 +402,7 @@ var (
 )
 
 func init() {
-	all := []string{c17OK, c17Servfail, c17NetErr, c17TimeoutI, c17CtxDL, c17EOF, c17BadReply, c17Timeout}
+	all := []string{c17OK, c17Servfail, c17NetErr, c17Gone, c17TimeoutI, c17CtxDL, c17EOF, c17BadReply, c17Timeout}
 	for _, om := range all {
 		if c17IsReply(om) {
 			// The fallback must not be consulted; give it a net error so a
